@@ -57,9 +57,9 @@ ASSUMPTIONS = ['"non-decreasing chi²" is checked EXACTLY on the own float64 num
                'ever occurs (then the row must rank last among non-NaN rows and be consistent), but is not required.  True +inf / NaN '
                'chi² rows are exercised through directly built FitInfo objects']
 EXHAUSTIVE = {'quick': False, 'thorough': True}
-N_E2E = {'quick': 45, 'thorough': 900}
-N_E2E3D = {'quick': 14, 'thorough': 250}
-N_CUBE = {'quick': 24, 'thorough': 400}
+N_E2E = {'quick': 45, 'thorough': 3000}
+N_E2E3D = {'quick': 14, 'thorough': 900}
+N_CUBE = {'quick': 24, 'thorough': 1500}
 N_DIRECT_QUICK = 700
 
 
